@@ -113,6 +113,12 @@ func (f *filters) install(srv *BfeServer) {
 					if v == vFinish {
 						return bfe_module.BfeHandlerFinish
 					}
+					if v == vRedirect && point == bfe_module.HandleReadResponse {
+						// the module hides the response behind a redirect
+						req.Redirect.Url = fmt.Sprintf("/moved/r%d/p%d/f%d", id, point, idx)
+						req.Redirect.Code = 302
+						return bfe_module.BfeHandlerRedirect
+					}
 					return bfe_module.BfeHandlerGoOn
 				})
 			default:
